@@ -386,7 +386,15 @@ pub fn explore<O>(bound: usize, max_executions: u64, mut run: impl FnMut(&[usize
             stats.capped = true;
             break;
         }
-        let ex = run(&prefix);
+        let ex = {
+            let (ctx, pf) = (crate::evidence::watchdog::context(), prefix.clone());
+            let _g = crate::evidence::watchdog::enter(move || {
+                let mut c = if ctx.is_object() { ctx.clone() } else { serde_json::json!({"engine": "schedmc"}) };
+                c["schedule"] = serde_json::json!(pf);
+                c
+            });
+            run(&prefix)
+        };
         stats.executions += 1;
         stats.by_deviations[used] += 1;
         stats.max_points = stats.max_points.max(ex.points.len());
